@@ -224,15 +224,38 @@ def rule_read(ctx, f):
         ctx.lost("C19-READ", "font::parse_cid")
     else:
         pcfg = CFG(pc)
+        pfl = Flow(pc)
         lens = set()
+
+        def reaches_ok(tg, avoid):
+            reach = pcfg.reachable_from(tg, avoid=avoid) | {tg}
+            return any(s2[0] == "assign" and s2[1] == [0] and s2[2][0] == "aggregate" and s2[2][1].get("variant") == "Ok" for r2 in reach for s2 in pc["blocks"][r2]["stmts"])
         for i, bb in enumerate(pc["blocks"]):
             tt = bb["term"]
-            if tt["k"] == "switch" and tt.get("discr_ty") == "usize":
+            if tt["k"] != "switch":
+                continue
+            if tt.get("discr_ty") == "usize":
+                # `match b.len() { 2 => .., 1 => .. }`
+                others = {x for v0, x in tt["arms"]} | {tt.get("otherwise")}
                 for v, tg in tt["arms"]:
-                    reach = pcfg.reachable_from(tg, avoid={i}) | {tg}
-                    oks = any(s2[0] == "assign" and s2[1] == [0] and s2[2][0] == "aggregate" and s2[2][1].get("variant") == "Ok" for r2 in reach for s2 in pc["blocks"][r2]["stmts"])
-                    if oks and tg != tt.get("otherwise"):
+                    if tg != tt.get("otherwise") and reaches_ok(tg, {i} | (others - {tg})):
                         lens.add(v)
+                continue
+            # `if b.len() == 2 { .. } else if b.len() == 1 { .. }`
+            for st in bb["stmts"]:
+                if st[0] == "assign" and st[2][0] == "binop" and st[2][1] in ("Eq", "Ne") and F.op_local(tt["discr"]) == st[1][0]:
+                    k = F.const_int(st[2][3]) if F.const_int(st[2][3]) is not None else F.const_int(st[2][2])
+                    o = st[2][2] if F.const_int(st[2][3]) is not None else st[2][3]
+                    l = F.op_local(o)
+                    if k is None or l is None or not any(a[0] == "call" and last_seg(a[1]) == "len" for a in pfl.origins(l)):
+                        continue
+                    arms = {a[0]: a[1] for a in tt["arms"]}
+                    false_t = arms.get(0, tt.get("otherwise"))
+                    true_t = tt.get("otherwise") if 0 in arms else arms.get(1)
+                    eq_t = true_t if st[2][1] == "Eq" else false_t
+                    ne_t = false_t if eq_t == true_t else true_t
+                    if eq_t is not None and reaches_ok(eq_t, {i, ne_t}):
+                        lens.add(k)
         ctx.check(lens == {1, 2}, "C19-READ", "parse_cid#lengths", "codes of length %s are accepted (one-byte and two-byte codes are both well-formed)" % sorted(lens), pc["span"],
                   detail="1- and 2-byte codes")
     ctx.check(n_range >= 2, "C19-READ", "parse_cmap#range-forms", "fewer than two insert sites run over a code range start..=end (string form and array form)", r["span"], detail="%d range-driven inserts" % n_range)
